@@ -947,7 +947,9 @@ class Module(ABC):
             if ~np.all(compartment_properties == compartment_properties[0]):
                 raise ValueError(error_msg(property_name))
 
-        if not (self.nodes[channel_names].var() == 0.0).all():
+        # `nunique()` instead of `var()`: the variance is NaN (and not 0.0) for branches
+        # with a single compartment and for channels that do not exist in this branch.
+        if not (self.nodes[channel_names].nunique(dropna=False) <= 1).all():
             raise ValueError(
                 "Some channel exists only in some compartments of the branch which you"
                 "are trying to modify. This is not allowed. First specify the number"
@@ -956,7 +958,8 @@ class Module(ABC):
             )
 
         if not (
-            self.nodes[channel_param_names + channel_state_names].var() == 0.0
+            self.nodes[channel_param_names + channel_state_names].nunique(dropna=False)
+            <= 1
         ).all():
             raise ValueError(
                 "Some channel has different parameters or states between the "
